@@ -138,15 +138,16 @@ type Check struct {
 
 // JobResult is what a job reports.
 type JobResult struct {
-	ID         int    `json:"id"`
-	Returned   bool   `json:"returned"`
-	AtReturn   *Check `json:"at_return,omitempty"`
-	AtEnd      *Check `json:"at_end,omitempty"`
-	Digest     string `json:"digest,omitempty"`
-	Items      int    `json:"items,omitempty"`
-	FaultFired bool   `json:"fault_fired,omitempty"`
-	FaultNote  string `json:"fault_note,omitempty"`
-	Sig        string `json:"sig,omitempty"` // model/renderer/cells/sink signature for C09 grouping
+	ID         int     `json:"id"`
+	Returned   bool    `json:"returned"`
+	AtReturn   *Check  `json:"at_return,omitempty"`
+	AtEnd      *Check  `json:"at_end,omitempty"`
+	Digest     string  `json:"digest,omitempty"`
+	Items      int     `json:"items,omitempty"`
+	FaultFired bool    `json:"fault_fired,omitempty"`
+	FaultNote  string  `json:"fault_note,omitempty"`
+	Sig        string  `json:"sig,omitempty"` // model/renderer/cells/sink signature for C09 grouping
+	Notices    []Check `json:"notices,omitempty"`
 }
 
 // Result is what an episode process prints.
@@ -156,6 +157,7 @@ type Result struct {
 	Verdict     string                  `json:"verdict"` // ok violation harness-error
 	Class       string                  `json:"class,omitempty"`
 	Msg         string                  `json:"msg,omitempty"`
+	Notices     []Check                 `json:"notices,omitempty"`
 	Sim         string                  `json:"sim"` // simulator verdict of the last group
 	Steps       int                     `json:"steps"`
 	TraceHash   string                  `json:"trace_hash"`
